@@ -13,7 +13,7 @@ UNITS = {
                 'theorems': 'codegen_theorems.rs', 'out': 'codegen_verus.rs'},
 }
 
-def generate(repo, outdir, unit='runtime', contracts_dir=None, canary=None):
+def generate(repo, outdir, unit='runtime', contracts_dir=None, canary=None, force_assume=None):
     u = UNITS[unit]
     contracts_dir = contracts_dir or os.path.join(HERE, '..', 'contracts')
     contracts = parse_contracts(os.path.join(contracts_dir, u['contracts']))
@@ -22,6 +22,7 @@ def generate(repo, outdir, unit='runtime', contracts_dir=None, canary=None):
         if key not in contracts: raise LostAnchor('canary target %r missing' % (key,))
         contracts[key].clauses.append(Clause('ensures', 'CANARY', [], 'false'))
     out = Out()
+    out.force_assume = dict(force_assume or {})
     out.emit(open(os.path.join(contracts_dir, 'prelude.rs')).read().rstrip('\n'))
     out.emit('verus! {')
     out.emit('')
@@ -39,7 +40,7 @@ def generate(repo, outdir, unit='runtime', contracts_dir=None, canary=None):
     path = os.path.join(outdir, u['out'])
     open(path, 'w').write('\n'.join(out.lines) + '\n')
     index = {'unit': unit, 'clauses': out.clause_index, 'fns': out.fn_index, 'log': out.log,
-             'speclib_lines': [speclib_lo, speclib_hi], 'theorems_from': thm_lo,
+             'unreachable': out.unreachable, 'speclib_lines': [speclib_lo, speclib_hi], 'theorems_from': thm_lo,
              'contract_keys': [list(k) for k in contracts]}
     json.dump(index, open(os.path.join(outdir, unit + '_index.json'), 'w'), indent=1)
     return path, index
